@@ -37,10 +37,14 @@ pub struct Cfg {
     pub strip: Option<String>,
     /// (product name, product version, separate crate version)
     pub krate: Option<(String, String, Option<String>)>,
+    /// how the tool's boolean flags are written: false = `--flag=<value>`, true = bare `--flag` for true and nothing
+    /// for false (the README's `[=<VALUE>]` form)
+    pub bare: bool,
 }
 
 impl Cfg {
-    fn lib_args(&self) -> Vec<String> {
+    /// `swapped`: call `version` before `build_crate` (the setters are independent, so the order must not matter)
+    fn lib_args(&self, swapped: bool) -> Vec<String> {
         let mut v = vec![format!("--exhaustive={}", self.exhaustive), format!("--empties={}", self.empties)];
         if let Some(s) = &self.strip {
             v.push(format!("--strip={}", s));
@@ -48,13 +52,30 @@ impl Cfg {
         if let Some((n, ver, cv)) = &self.krate {
             // the library equivalent of the tool's flags: the crate gets the crate version (default: the
             // product version), endpoint metadata the product version
-            v.push(format!("--crate={}:{}", n, cv.as_ref().unwrap_or(ver)));
-            v.push(format!("--version={}", ver));
+            let (a, b) = (format!("--crate={}:{}", n, cv.as_ref().unwrap_or(ver)), format!("--version={}", ver));
+            if swapped {
+                v.push(b);
+                v.push(a);
+            } else {
+                v.push(a);
+                v.push(b);
+            }
         }
         v
     }
     fn cli_args(&self) -> Vec<String> {
-        let mut v = vec![format!("--exhaustive={}", self.exhaustive), format!("--serializeEmptyCollections={}", self.empties)];
+        let mut v = vec![];
+        if self.bare {
+            if self.exhaustive {
+                v.push("--exhaustive".to_string());
+            }
+            if self.empties {
+                v.push("--serializeEmptyCollections".to_string());
+            }
+        } else {
+            v.push(format!("--exhaustive={}", self.exhaustive));
+            v.push(format!("--serializeEmptyCollections={}", self.empties));
+        }
         if let Some(s) = &self.strip {
             v.push(format!("--stripPrefix={}", s));
         }
@@ -158,9 +179,9 @@ fn one(cs: &mut Cases, label: &str, ir: &Value, cfg: &Cfg, cli: &Result<PathBuf,
     std::fs::write(&ir_path, serde_json::to_vec(ir).unwrap()).unwrap();
     let me = std::env::current_exe().unwrap();
     let mut trees: Vec<(String, Result<BTreeMap<String, Vec<u8>>, String>)> = vec![];
-    for run in ["lib1", "lib2"] {
+    for run in ["lib1", "lib2", "lib3"] {
         let out = root.join(run);
-        let o = Command::new(&me).arg("gen").arg(&ir_path).arg(&out).args(cfg.lib_args()).current_dir(&root).output();
+        let o = Command::new(&me).arg("gen").arg(&ir_path).arg(&out).args(cfg.lib_args(run == "lib3")).current_dir(&root).output();
         trees.push((run.to_string(), match o {
             Ok(o) if o.status.success() => {
                 let mut t = BTreeMap::new();
@@ -187,7 +208,7 @@ fn one(cs: &mut Cases, label: &str, ir: &Value, cfg: &Cfg, cli: &Result<PathBuf,
     // anything created outside the three output directories?
     let mut all = BTreeMap::new();
     read_tree(&root, &root, &mut all);
-    let strays: Vec<String> = all.keys().filter(|k| *k != "ir.json" && !k.starts_with("lib1/") && !k.starts_with("lib2/") && !k.starts_with("cli/")).cloned().collect();
+    let strays: Vec<String> = all.keys().filter(|k| *k != "ir.json" && !k.starts_with("lib1/") && !k.starts_with("lib2/") && !k.starts_with("lib3/") && !k.starts_with("cli/")).cloned().collect();
     let nontrivial = cfg.exhaustive || cfg.empties || cfg.strip.is_some() || cfg.krate.is_some() || !ir["services"].as_array().map(|a| a.is_empty()).unwrap_or(true) || ir["types"].as_array().map(|a| a.len() >= 2).unwrap_or(false);
     let note = format!("{} {:?} ({} types, {} services)", label, cfg, ir["types"].as_array().map(|a| a.len()).unwrap_or(0), ir["services"].as_array().map(|a| a.len()).unwrap_or(0));
     // model: the written paths (module mode only: the crate wrapper adds Cargo.toml etc. and `src/`)
@@ -237,12 +258,12 @@ pub fn cases(seed: u64, tier: Tier) -> Cases {
     }
     let fixed: Vec<(&str, Value)> = vec![("verif.json", serde_json::from_str(verifgen::IR_SRC).unwrap()), ("test-ir.json", serde_json::from_str(&std::fs::read_to_string("/repo/conjure-test/test-ir.json").unwrap_or_else(|_| "{\"version\":1,\"errors\":[],\"types\":[],\"services\":[],\"extensions\":{}}".into())).unwrap())];
     let cfgs = |rng: &mut Rng, pkg: &str| -> Cfg {
-        Cfg { exhaustive: rng.chance(1, 2), empties: rng.chance(1, 2), strip: match rng.below(3) { 0 => None, 1 => Some(pkg.to_string()), _ => Some(pkg.rsplit_once('.').map(|x| x.0.to_string()).unwrap_or_else(|| pkg.to_string())) }, krate: match rng.below(6) { 0 => Some(("my-product".to_string(), "1.2.3".to_string(), None)), 1 => Some(("my-product".to_string(), "1.2.3".to_string(), Some("9.9.9-rc1".to_string()))), _ => None } }
+        Cfg { exhaustive: rng.chance(1, 2), empties: rng.chance(1, 2), strip: match rng.below(3) { 0 => None, 1 => Some(pkg.to_string()), _ => Some(pkg.rsplit_once('.').map(|x| x.0.to_string()).unwrap_or_else(|| pkg.to_string())) }, krate: match rng.below(6) { 0 => Some(("my-product".to_string(), "1.2.3".to_string(), None)), 1 => Some(("my-product".to_string(), "1.2.3".to_string(), Some("9.9.9-rc1".to_string()))), _ => None }, bare: rng.chance(1, 2) }
     };
     let mut n = 0;
     for (name, ir) in &fixed {
         let pkg = if *name == "verif.json" { "com.palantir.verif" } else { "com.palantir.conjure" };
-        one(&mut cs, name, ir, &Cfg { exhaustive: false, empties: false, strip: None, krate: None }, &cli, n);
+        one(&mut cs, name, ir, &Cfg { exhaustive: false, empties: false, strip: None, krate: None, bare: false }, &cli, n);
         n += 1;
         for _ in 0..(if tier == Tier::Quick { 2 } else { 8 }) {
             let c = cfgs(&mut rng, pkg);
